@@ -145,12 +145,17 @@ Ends       == /\ clk.date = <<1900, 1, 1>>   => clk.serial = 1
               /\ clk.date = <<9999, 12, 31>> => clk.serial = MaxSerial
 TimeOK     == /\ ValidTime(HMS(clk.sod))
               /\ Sod(HMS(clk.sod)[1], HMS(clk.sod)[2], HMS(clk.sod)[3]) = clk.sod
-(* the exact binary fraction of sod/86400, when it has one, is recognised (sod = 0, 43200, ...) *)
-HalfDay    == /\ DoubleLess(<<59, 0, 0, 0, 0>>, <<59, 0, 0, 0, 1>>) /\ DoubleLess(<<59, 8191, 0, 0, 0>>, <<61, 0, 0, 0, 0>>)
+(* The digit-wise fraction arithmetic: 86400 = 2^7 * 675, so a time of day that is a multiple of *)
+(* 675 s is the binary fraction (sod/675)/128 exactly = <<(sod/675)*64, 0, 0, 0>>; one unit in   *)
+(* the last place beside an exact fraction is accepted, 2^-26 day (1.3 ms) beside it is not.    *)
+FracArith  == /\ clk.sod % 675 = 0 =>
+                   LET f == <<(clk.sod \div 675) * 64, 0, 0, 0>>
+                   IN  /\ Times86400(f) = <<clk.sod, 0, 0, 0, 0>>
+                       /\ FracIsSecond(f, clk.sod) /\ ~FracIsSecond(f, clk.sod + 1)
+                       /\ clk.sod > 0 => ~FracIsSecond(f, clk.sod - 1)
+              /\ FracIsSecond(<<4095, 8191, 8191, 8191>>, 43200) /\ FracIsSecond(<<4096, 0, 0, 1>>, 43200)
+              /\ ~FracIsSecond(<<4095, 8191, 0, 0>>, 43200)      /\ ~FracIsSecond(<<4096, 1, 0, 0>>, 43200)
+              /\ DoubleLess(<<59, 0, 0, 0, 0>>, <<59, 0, 0, 0, 1>>) /\ DoubleLess(<<59, 8191, 0, 0, 0>>, <<61, 0, 0, 0, 0>>)
               /\ ~DoubleLess(<<61, 0, 0, 0, 0>>, <<61, 0, 0, 0, 0>>) /\ ~DoubleLess(<<61, 0, 1, 0, 0>>, <<61, 0, 0, 8191, 0>>)
-              /\ FracIsSecond(<<0, 0, 0, 0>>, 0)
-              /\ FracIsSecond(<<4096, 0, 0, 0>>, 43200)
-              /\ ~FracIsSecond(<<4096, 0, 0, 0>>, 43201)
-              /\ ~FracIsSecond(<<4096, 0, 0, 0>>, 43199)
 Monotone   == [][ExactLess(<<clk.serial, clk.sod>>, <<clk'.serial, clk'.sod>>)]_vars
 =============================================================================
